@@ -224,7 +224,7 @@ func TestC19(t *testing.T) {
 			c.Ev.MarkExhaustive("0..4 ইনপুট calls (bare, with prompt, with empty prompt, interleaved with prints) x 0..4 stdin lines x with/without final newline x 4 text rotations")
 		})
 
-		n := 150
+		n := 300
 		if c.Thorough {
 			n = 3000
 		}
